@@ -22,7 +22,9 @@ from refs import http1
 PROPERTY = "C05"
 explorer.PROP = PROPERTY
 
-BEHAVIOURS = ["ret", "read", "httpexc", "exc", "timeout", "stream3", "park", "none", "readpark"]
+BEHAVIOURS = ["ret", "read", "httpexc", "exc", "timeout", "stream3", "park", "none", "readpark",
+              "stream-httpexc", "prepare-httpexc", "stream-exc", "stream-other", "stream-noeof"]
+MIDFAIL = ("stream-httpexc", "prepare-httpexc", "stream-exc", "stream-other")
 
 
 def req(i, kind="get", close=False):
@@ -116,6 +118,19 @@ class Scen:
                 await resp.write(part)
             await resp.write_eof()
             return resp
+        if b in ("stream-httpexc", "prepare-httpexc", "stream-exc", "stream-other", "stream-noeof"):
+            # a response already under way when the handler changes its mind
+            resp = web.StreamResponse(headers=hdr)
+            await resp.prepare(request)
+            if b != "prepare-httpexc":
+                await resp.write(b"one")
+            if b == "stream-exc":
+                raise RuntimeError("boom after the head")
+            if b == "stream-other":
+                return web.Response(text="other", headers=hdr)
+            if b == "stream-noeof":
+                return resp
+            raise web.HTTPForbidden(headers=hdr)
         if b in ("park", "readpark"):
             if b == "readpark":
                 await request.read()
@@ -231,7 +246,13 @@ class Scen:
         n_req = len([m for m in ref.messages if m.complete or m.framing != "none"])
         n_heads = len(ref.messages)
         malformed_input = ref.verdict in ("reject", "reject-body")
-        if fr.malformed and not self.peer_gone:
+        aborted = False
+        if fr.malformed == "truncated body" and rs and c.st.is_closing():
+            # a handler that fails (or changes its mind) after its response is under way: the server cannot take the
+            # sent bytes back, so the one allowed outcome is this response cut short and the connection closed
+            xs = rs[-1].header(b"X-Seq")
+            aborted = xs is not None and self.beh[int(xs) % len(self.beh)] in MIDFAIL
+        if fr.malformed and not self.peer_gone and not aborted:
             self.P("malformed-output", f"server output is not a sequence of well-formed responses: {fr.malformed}")
         # responses are answers to requests, in order
         allowed = n_heads + (1 if ref.verdict != "ok" or ref.pending_head else 0)
